@@ -230,7 +230,8 @@ Ltac open_case O K E' T X H Hrec Htc Hendc Ps :=
       destruct g as [|g]; [simpl in Hgl; lia|]; rewrite (cvu_open g _ T E' _ eq_refl);
       change (ending K) with (Some E') in HcA; simpl in Hgl; rewrite HcA by lia; cbn [fst snd];
       let Hl := fresh "Hl" in
-      pose proof (cvu_length g (Some E') (filt _ (S.tokens rS))) as Hl;
+      match type of HcA with forall g0, _ -> S.component_values_until g0 _ ?L = _ =>
+        pose proof (cvu_length g (Some E') L) as Hl end;
       rewrite HcA in Hl by lia; cbn [snd] in Hl;
       rewrite HcB by lia; reflexivity
     | cbn [map]; cbn [S.erase]; rewrite HnA, HnB; reflexivity
@@ -360,4 +361,83 @@ Proof.
       * intros g T. rewrite filt_cons. cbn [S.is_comment]. rewrite andb_true_r. destruct skip.
         -- cbn [app]. destruct (cvu (S g) (ending endc) (filt true T)); reflexivity.
         -- rewrite cvu_comment. reflexivity.
+Qed.
+
+(* ------------------------------------------------------------------ preprocessing *)
+Definition pre_one (c : N) : N :=
+  if (c =? 13) || (c =? 12) then 10
+  else if (c =? 0) || ((55296 <=? c) && (c <=? 57343)) then 65533 else c.
+
+Lemma spec_pre_cons c r : S.preprocess (c :: r) =
+  if (c =? 13) && (match r with d :: _ => d =? 10 | [] => false end)
+  then 10 :: S.preprocess (tl r) else pre_one c :: S.preprocess r.
+Proof.
+  destruct r as [|d r']; [rewrite andb_false_r; reflexivity|]. cbn [S.preprocess tl].
+  destruct ((c =? 13) && (d =? 10)); reflexivity.
+Qed.
+
+Lemma tok_pre_cons c r : Tok.preprocess (c :: r) =
+  if (c =? 13) && (match r with d :: _ => d =? 10 | [] => false end)
+  then 10 :: Tok.preprocess (tl r)
+  else (if c =? 0 then 65533 else if (c =? 13) || (c =? 12) then 10 else c) :: Tok.preprocess r.
+Proof.
+  cbn [Tok.preprocess]. destruct (c =? 0) eqn:E0.
+  - replace (c =? 13) with false by lia. reflexivity.
+  - destruct (c =? 13) eqn:E13.
+    + destruct r as [|d r']; [reflexivity|]. cbn [andb tl]. destruct (d =? 10); reflexivity.
+    + cbn [andb orb]. destruct (c =? 12); reflexivity.
+Qed.
+
+Lemma preprocess_spec_n : forall n s, (length s <= n)%nat -> scalars s ->
+  Tok.preprocess s = S.preprocess s /\ scalars (Tok.preprocess s).
+Proof.
+  induction n as [|n IH]; intros s Hl Hs.
+  - destruct s; [split; [reflexivity|constructor]|simpl in Hl; lia].
+  - destruct s as [|c r]; [split; [reflexivity|constructor]|].
+    inversion Hs as [|? ? Hc Hr]; subst. simpl in Hl.
+    rewrite tok_pre_cons, spec_pre_cons.
+    destruct ((c =? 13) && _).
+    + assert (Hr' : scalars (tl r)) by (destruct r; [constructor|inversion Hr; assumption]).
+      destruct (IH (tl r)) as [E1 E2]; [destruct r; simpl in *; lia|exact Hr'|].
+      rewrite <- E1. split; [reflexivity|]. constructor; [split; [lia|reflexivity]|exact E2].
+    + destruct (IH r) as [E1 E2]; [lia|exact Hr|]. rewrite <- E1.
+      destruct Hc as [Hc1 Hc2]. unfold is_surrogate in Hc2.
+      assert (Eone : (if c =? 0 then 65533 else if (c =? 13) || (c =? 12) then 10 else c) = pre_one c).
+      { unfold pre_one. rewrite Hc2. destruct (c =? 0) eqn:E0.
+        - replace ((c =? 13) || (c =? 12)) with false by lia. reflexivity.
+        - rewrite orb_false_r. reflexivity. }
+      rewrite Eone. split; [reflexivity|]. constructor; [|exact E2].
+      unfold pre_one. rewrite Hc2.
+      destruct ((c =? 13) || (c =? 12)); [split; [lia|reflexivity]|].
+      destruct (c =? 0); cbn [orb]; [split; [lia|reflexivity]|].
+      split; [exact Hc1|exact Hc2].
+Qed.
+
+Lemma preprocess_spec s : scalars s -> Tok.preprocess s = S.preprocess s.
+Proof. intros H. apply (preprocess_spec_n (length s) s (le_n _) H). Qed.
+
+Lemma preprocess_scalars s : scalars s -> scalars (Tok.preprocess s).
+Proof. intros H. apply (preprocess_spec_n (length s) s (le_n _) H). Qed.
+
+(* ------------------------------------------------------------------ blocks_spec *)
+Theorem blocks_spec : forall (skip : bool) (s : list N), scalars s ->
+  exists ts, tokenize true skip s = Ok ts /\ map S.erase ts = S.spec_tokenize skip s.
+Proof.
+  intros skip s Hs. destruct (tokenize_total skip s) as [ts Et]. exists ts. split; [exact Et|].
+  unfold tokenize, tokenize_pre in Et.
+  set (src := Tok.preprocess s) in *.
+  destruct (consume_value_list true skip (S (S (length src))) 0 (init_state src)) as [[out st']| |] eqn:Ec;
+    try discriminate.
+  cbn [bind] in Et. inversion Et; subst out.
+  assert (Hg : good src) by (split; [apply preprocess_scalars; exact Hs|apply preprocess_nonul]).
+  destruct (cvl_sim skip (S (S (length src))) 0 (init_state src) ts st') as (vs & Hcv & Hno & _).
+  - exact Hg.
+  - left; reflexivity.
+  - simpl. lia.
+  - exact Ec.
+  - rewrite Hno. unfold S.spec_tokenize. rewrite <- (preprocess_spec s Hs). fold src.
+    unfold S.component_values. cbn [init_state l_rest] in Hcv.
+    change (if skip then S.drop_comments (S.tokens src) else S.tokens src) with (filt skip (S.tokens src)).
+    change (ending 0) with (@None S.stoken) in Hcv.
+    rewrite Hcv by lia. reflexivity.
 Qed.
